@@ -23,7 +23,7 @@ import (
 	"github.com/gorilla/websocket"
 )
 
-const wait = 1500 * time.Millisecond
+const wait = 5 * time.Second // generous: the machine may be heavily loaded; a timeout is reported as err-… and retried
 
 type wsDrv struct {
 	ts     *httptest.Server
@@ -138,7 +138,7 @@ func (d *wsDrv) Step(line string) string {
 			case errors.Is(err, server.ErrInvalWsMsgType):
 				return "err"
 			case errors.As(err, &ne) && ne.Timeout():
-				return "blocked"
+				return "err-blocked"
 			}
 			if got != 0 {
 				return fmt.Sprintf("eof+%d", got)
